@@ -38,7 +38,7 @@ def gen_case(rng, tier, i):
                       "EventBasedTally+resub", "EventBasedCounter+resub"])
     entry = rng.choice(["register", "notify"]) if cls.startswith("EventBased") else "register"
     n = rng.choice([0, 1, 2, 3, 4, 5, 5, 10, 10, 50, 50, 300] + ([3000] if rng.random() < 0.08 else [12]))
-    klass = rng.choice(["int", "mixed", "offset", "equal", "two", "near", "huge"])
+    klass = rng.choice(["int", "mixed", "offset", "equal", "two", "near", "huge", "ulp"])
     if cls.startswith("Counter") or cls.startswith("EventBasedCounter"):
         vals = [rng.randint(-1000, 1000) for _ in range(n)]
     elif klass == "int":
@@ -49,6 +49,11 @@ def gen_case(rng, tier, i):
         off = 10 ** rng.uniform(3, 12)
         sp = 10 ** rng.uniform(-3, 2)
         vals = [off + rng.uniform(-sp, sp) for _ in range(n)]
+    elif klass == "ulp":
+        # unequal values whose spread is lost in the running moments (neighbouring floats; differences whose square underflows):
+        # the variance comes out as exactly 0.0 although min != max
+        base_ = rng.choice([[1 + 2 ** -52, 1 + 2 ** -51, 1.0], [0.0, 1e-170, 2e-170], [1e9, 1e9 + 2 ** -23], [-5.0, -5.0 + 2 ** -50]])
+        vals = [rng.choice(base_) for _ in range(n)]
     elif klass == "huge":
         # finite values far apart: third and fourth powers of the differences leave the float range (only totality and the
         # first-order statistics are judged there)
